@@ -32,13 +32,93 @@ func (w *World) baseClass(v ssa.Value) (class string, via string) {
 }
 
 func (w *World) baseClassSeen(v ssa.Value, seen map[ssa.Value]bool) (class string, via string) {
+	return w.baseClassFrom(v, seen, false)
+}
+
+// storedInto: what a load out of the freshly made container c (a local record, a made slice / map, a local array) can yield -
+// the join over everything that was put there: element and member stores, copy(c, src), append(c, src...), whole-record copies.
+// A container made here is fresh; the pointers it was filled with are whatever they were before.
+func (w *World) storedInto(c ssa.Value, field int, seen map[ssa.Value]bool) (class string, via string) {
+	worst, wvia := "fresh", "empty"
+	join := func(c, via string) {
+		if classRank(c) > classRank(worst) {
+			worst, wvia = c, via
+		}
+	}
+	var visit func(h ssa.Value, depth int)
+	visit = func(h ssa.Value, depth int) {
+		if depth > 6 || h.Referrers() == nil {
+			return
+		}
+		for _, ref := range *h.Referrers() {
+			switch r := ref.(type) {
+			case *ssa.IndexAddr:
+				if r.X != h {
+					continue
+				}
+				for _, rr := range *r.Referrers() {
+					if st, ok := rr.(*ssa.Store); ok && st.Addr == ssa.Value(r) {
+						join(w.baseClassFrom(st.Val, seen, false))
+					}
+				}
+			case *ssa.FieldAddr:
+				if r.X != h || (field >= 0 && r.Field != field) {
+					continue
+				}
+				for _, rr := range *r.Referrers() {
+					if st, ok := rr.(*ssa.Store); ok && st.Addr == ssa.Value(r) {
+						join(w.baseClassFrom(st.Val, seen, false))
+					}
+				}
+			case *ssa.Store:
+				if r.Addr == h {
+					// whole-value store (p := *q; arr := [..]): what the copied value holds is what the source held
+					if u, ok := r.Val.(*ssa.UnOp); ok && u.Op.String() == "*" {
+						join(w.baseClassFrom(u.X, seen, true))
+					} else if _, isConst := r.Val.(*ssa.Const); !isConst {
+						join(w.baseClassFrom(r.Val, seen, true))
+					}
+				}
+			case *ssa.MapUpdate:
+				if r.Map == h {
+					join(w.baseClassFrom(r.Value, seen, false))
+				}
+			case *ssa.Slice:
+				if r.X == h {
+					visit(r, depth+1)
+				}
+			case *ssa.Phi:
+				visit(r, depth+1)
+			case *ssa.Call:
+				if b, ok := r.Call.Value.(*ssa.Builtin); ok {
+					switch b.Name() {
+					case "copy":
+						if len(r.Call.Args) == 2 && r.Call.Args[0] == h {
+							join(w.baseClassFrom(r.Call.Args[1], seen, true))
+						}
+					case "append":
+						if len(r.Call.Args) == 2 && r.Call.Args[0] == h {
+							join(w.baseClassFrom(r.Call.Args[1], seen, true))
+							visit(r, depth+1)
+						}
+					}
+				}
+			}
+		}
+	}
+	visit(c, 0)
+	return worst, wvia
+}
+
+func (w *World) baseClassFrom(v ssa.Value, seen map[ssa.Value]bool, loaded bool) (class string, via string) {
 	if seen[v] {
 		return "fresh", "cycle"
 	}
 	seen[v] = true
 	sawModel := ""
 	sawGen := ""
-	loaded := false // passed through a pointer/field load on the way down
+	lastField := -1 // member of the record the walk last stepped out of
+	// loaded: passed through a pointer/field load on the way down
 	for i := 0; i < 128; i++ {
 		t := v.Type()
 		if n := modelTypeName(t); n != "" && sawModel == "" {
@@ -63,9 +143,26 @@ func (w *World) baseClassSeen(v ssa.Value, seen map[ssa.Value]bool) (class strin
 				v = spilled
 				continue
 			}
-			// a local copy of a model struct (p := *padding) or a composite literal: fresh
+			// a local copy of a model struct (p := *padding) or a composite literal: fresh - but a pointer loaded out of it is
+			// whatever was stored there
+			if loaded {
+				if c, via := w.storedInto(x, lastField, seen); c != "fresh" {
+					if c == "other" {
+						return w.finishClass(sawModel, sawGen, "other")
+					}
+					return c, via
+				}
+			}
 			return "fresh", "alloc"
 		case *ssa.MakeMap, *ssa.MakeSlice:
+			if loaded {
+				if c, via := w.storedInto(x, -1, seen); c != "fresh" {
+					if c == "other" {
+						return w.finishClass(sawModel, sawGen, "other")
+					}
+					return c, via
+				}
+			}
 			return "fresh", "make"
 		case *ssa.Global:
 			return "global", x.Name()
@@ -75,8 +172,10 @@ func (w *World) baseClassSeen(v ssa.Value, seen map[ssa.Value]bool) (class strin
 				sawModel = tn
 			}
 			_ = fn
+			lastField = x.Field
 			v = x.X
 		case *ssa.Field:
+			lastField = x.Field
 			v = x.X
 		case *ssa.IndexAddr:
 			v = x.X
@@ -169,7 +268,15 @@ func (w *World) baseClassSeen(v ssa.Value, seen map[ssa.Value]bool) (class strin
 				}
 			}
 			if b, ok := x.Call.Value.(*ssa.Builtin); ok && b.Name() == "append" {
-				// append(x, ...) may alias x
+				// append(x, ...) may alias x; an element loaded out of the result may come from either argument
+				if loaded && len(x.Call.Args) == 2 {
+					if c, via := w.baseClassFrom(x.Call.Args[1], seen, true); classRank(c) > classRank("instance") {
+						if c == "other" {
+							return w.finishClass(sawModel, sawGen, "other")
+						}
+						return c, via
+					}
+				}
 				v = x.Call.Args[0]
 				continue
 			}
